@@ -19,6 +19,10 @@ P = {
   "The three projective formulas are validated against the Renes-Costello-Batina closed forms as polynomial identities in symbolic coordinates (all inputs, all representatives); doubling reference tied to the addition reference modulo the curve equation; alias patterns; exported operations reduce to the formulas with the validity flag propagated; Equal = two cross-product tests; every coordinate leaving the package comes from rescale().",
   "Trusted: RCB15 completeness theorem for prime-order curves, C01 (field operations exact), go/ssa, the checker.",
   "abstract interpretation over go/ssa; polynomial normal-form comparison with reference formulas"),
+ "C17": ("other",
+  "Sound (for the modelled sinks) interprocedural taint analysis by abstract interpretation over go/ssa, in both amd64 build configurations (arm64 added in thorough): every fiat limb routine, helper and reduceSaturated with every word secret; every non-Vartime method of field.Element and Scalar with every operand secret; every non-Vartime Point method, the window-table methods, table construction and the pure-Go lookups with every coordinate / control word / index secret; ScalarMult, ScalarBaseMult, MultiScalarMult with secret scalars through the real ladders and lookups; the protocol layer (key import, key generation, ECDH, ECDSA sign incl. nonce generation and self-check, Schnorr key derivation and signing) with secret = key bytes, private scalars, entropy bytes and everything derived. Sinks: branch conditions, indices / slice bounds / allocation sizes, division / modulo / variable shifts, calls of *Vartime* routines, calls of library functions outside the constant-time table, calls without specification. ~270 runs; every finding (56 on this tree) must match the declassification table of 8 (function, kind of secret-dependent atom, reason) entries. Assembly lookups: idx reaches neither an address nor a jump, constant loop bound, no CALL (abstract interpretation of the .s file). Naming contract: inside the curve packages only *Vartime* functions call *Vartime* functions. Positive controls: the three Vartime twins run on secret scalars must be flagged.",
+  "Trusted: the Go compiler keeps branch-free SSA branch-free; 64-bit ALU / SSE2 timing is data independent; the constant-time library table; the lower-layer specifications used at the upper layers (each lower layer is analysed in its own runs). Micro-architectural leakage is out of scope.",
+  "interprocedural taint analysis (abstract interpretation over go/ssa with taint-carrying terms) + abstract interpretation of Go assembly + call-graph naming rule"),
  "C19": ("translation_validation",
   "The SSE2 lookup routines are validated against their portable twins for every index 0..15 and every table content: the assembly is parsed and abstractly interpreted (loop unrolled by constant propagation, XMM lanes symbolic), each stored lane must be the table limb / identity constant the Go reference (abstractly interpreted on a fully symbolic table) stores, under the gc/amd64 layout from go/types; store footprint inside the coordinate bytes; idx never reaches an address or branch; the build-constraint surface of the module is exactly the stub/assembly/reference triple with identical declaration sets in every configuration; all call sites pass 4-bit windows.",
   "Trusted: Go assembler semantics of the mnemonics used (tabled in internal/asmx), go/types.SizesFor(gc, amd64), go/ssa, the checker. Not decided: agreement of the avo generator (separate module internal/asm) with the checked-in .s file.",
@@ -77,7 +81,7 @@ P = {
   "abstract interpretation over go/ssa against lower-layer specifications; accept-set formulas compared as propositional normal forms"),
 }
 
-CLAIMED = ["C01", "C02", "C03", "C04", "C05", "C06", "C07", "C08", "C09", "C10", "C11", "C12", "C13", "C14", "C15", "C16", "C19"]
+CLAIMED = ["C01", "C02", "C03", "C04", "C05", "C06", "C07", "C08", "C09", "C10", "C11", "C12", "C13", "C14", "C15", "C16", "C17", "C19"]
 
 REASON_PENDING = "check under construction in this session (see DESIGN.md section 2); not yet claimed"
 
